@@ -11,15 +11,16 @@ DECIDES = ('Decides the lock discipline on the queue state, append-then-post, th
 RULES = {
     'R1': 'every access to the record list, the memory counter and the drop counter holds logt_wthread_lock',
     'R2': 'log_post: tail insertion, unlock, then sem_post on the same paths; the over-limit edge frees, undoes the accounting, counts a drop and posts nothing',
-    'R3': 'the worker exits only when asked to and the semaphore is drained (or sem_wait failed); otherwise it removes the first record',
+    'R3': 'the worker exits only when asked to and the record list, read under the lock, is empty (a zero semaphore count is accepted for that only if the exit request posts its wake-up token while holding the lock), or when sem_wait failed; otherwise it removes the first record',
     'R4': 'qb_log_fini stops the thread before the first target is disabled; thread_stop (active): flag under lock, post, join; (inactive): writes what is left',
-    'R5': 'qb_log_ctl2 (every request but THREADED) and _do_file_reload pause before and resume after on every path',
+    'R5': 'qb_log_ctl2 (every request but THREADED), _do_file_reload and every function that runs a target\'s close callback or recycles its slot (other than qb_log_fini, which has stopped the thread) pause before and resume after on every path',
     'R6': 'every sequence that destroys the thread lock leaves the module state reset (lock pointer NULL, wthread_active false)',
     'R8': 'queued records are written to the targets (qb_log_thread_log_write) only while holding logt_wthread_lock, the lock control operations take through pause/resume',
     'R7': 'every lock of logt_wthread_lock outside the worker is preceded by a test that the lock exists / the thread is active',
     'R9': 'the drain at fini really writes: qb_log_fini clears logger_inited before it stops the thread, so nothing the logging thread calls to write a record (the targets\' logger functions and what they call inside the library) may refuse or return early on !logger_inited - or fini stops the thread first',
+    'R10': 'no call through an absent logger: every call through qb_log_target.logger is made only where that target\'s logger was seen to be non-NULL (QB_LOG_CONF_THREADED is accepted for targets that only have a vlogger, such as the blackbox)',
 }
-FLOORS = {'R1': 11, 'R2': 5, 'R3': 4, 'R4': 5, 'R5': 4, 'R6': 3, 'R7': 3, 'R8': 2, 'R9': 3}
+FLOORS = {'R1': 11, 'R2': 5, 'R3': 4, 'R4': 5, 'R5': 5, 'R6': 3, 'R7': 3, 'R8': 2, 'R9': 3, 'R10': 2}
 
 LOCK = 'logt_wthread_lock'
 GUARDED = ('logt_print_finished_records', 'logt_memory_used', 'logt_dropped_messages')
@@ -58,6 +59,7 @@ def run(ctx):
     r2(ctx)
     r3(ctx)
     r4(ctx)
+    r10(ctx)
     r5(ctx)
     r6(ctx, fns)
     r7(ctx, fns)
@@ -108,17 +110,36 @@ def r3(ctx):
     def asked(a, fb):
         return a.op == '!=' and a.rc == 0 and a.ls == 'wthread_should_exit'
 
-    def drained(a, fb):
+    def list_empty(a, fb):
+        l = unwrap(a.l)
+        return a.op == '!=' and a.rc == 0 and callee_of(l) == 'qb_list_empty' and 'logt_print_finished_records' in estr(l['args'][0])
+
+    def count_zero(a, fb):
         return a.op == '==' and a.rc == 0 and unwrap(a.l).get('k') == 'var' and any(
             c.callee == 'sem_getvalue' and mentions_var(c.args[1], unwrap(a.l)['n']) for c in f.events('CALL'))
 
     def waitfailed(a, fb):
         return a.op == '==' and a.rc == -1 and unwrap(a.l).get('k') == 'var'
+    # "no token left" means "no record left" only if the wake-up token of the exit request is posted while the requester
+    # still holds the lock it set the flag under: otherwise the worker, having taken the last record's token, can see the
+    # flag before the wake-up token exists and leave with that record queued
+    s = ctx.prog.fn('qb_log_thread_stop')
+    sat, _IN = lockset(s)
+    flag = [ev for ev in s.events('STORE') if estr(ev.lhs) == 'wthread_should_exit' and cval(unwrap(ev.rhs)) not in (0, None)]
+    posts = [ev for ev in s.events('CALL') if _is_post(ev) and any(s.may_follow(fl, ev) for fl in flag)]
+    post_under_lock = bool(posts) and all(LOCK in sat.get((p.blk, p.idx), ()) for p in posts)
     for ex in exits:
         failed = f.uncut_path(ex, waitfailed) is None
-        ok = failed or (f.uncut_path(ex, asked) is None and f.uncut_path(ex, drained) is None)
-        ctx.check('R3', 'exit-needs-asked-and-drained', ok, ex, 'the worker exits only when asked to and the semaphore count is 0 (or sem_wait failed)',
-                  'the worker can exit while messages are still queued: they are lost at fini')
+        asked_ok = f.uncut_path(ex, asked) is None
+        by_list = f.uncut_path(ex, list_empty) is None
+        by_count = f.uncut_path(ex, count_zero) is None
+        ok = failed or (asked_ok and (by_list or (by_count and post_under_lock)))
+        why = 'the worker can exit while messages are still queued: they are lost at fini'
+        if not failed and asked_ok and by_count and not by_list:
+            why = ('the worker takes "exit requested and no token on the semaphore" for "queue empty", but qb_log_thread_stop posts its wake-up token '
+                   'after releasing the lock: a worker that has taken the last record\'s token and waits for the lock sees the flag with '
+                   'the count still 0 and leaves with that record queued (qb_log_fini returns, the message is never written)')
+        ctx.check('R3', 'exit-needs-asked-and-drained', ok, ex, 'the worker exits only when asked to and the record list is empty (or sem_wait failed)', why)
     dels = [ev for ev in f.calls('qb_list_del')]
     first = False
     for d in dels:
@@ -214,6 +235,41 @@ def r5(ctx):
         ok = ok and bool(swaps) and all(r.ev_dominates(ps[0], s) and not r.may_follow(rs[0], s) for s in swaps)
     ctx.check('R5', 'file_reload:swap-inside-pause', ok, ps[0] if ps else r, 'the log file is swapped between pause and resume',
               'the log file is closed/swapped while the logging thread may be writing to it')
+    # closing a target: the close callback and the recycling of the slot, wherever they are called from (qb_log_fini has
+    # stopped the thread before, R4)
+    n = 0
+    closers = {'qb_log_target::close', 'qb_log_target_free'}
+    done = set()
+    for _round in range(4):
+        grew = False
+        for g in prog.all_fns(files={'lib/log.c'}):
+            if g.name in done or g.name in ('qb_log_fini', 'qb_log_target_free'):
+                continue
+            eff = [ev for ev in g.events('CALL') if ev.callee in closers]
+            if not eff:
+                continue
+            done.add(g.name)
+            ps, rs = list(g.calls('qb_log_thread_pause')), list(g.calls('qb_log_thread_resume'))
+            if not ps and not rs and g.static and list(prog.callers_of(g.name)):
+                # a helper: what it does counts at its call sites
+                closers.add(g.name)
+                grew = True
+                continue
+            n += 1
+            ok = len(ps) == 1 and len(rs) == 1
+            if ok:
+                _h, exits, _n = g.search(('after', ps[0]), stop=lambda ev: ev is rs[0], edge_filter=is_threaded_edge if g is f else None)
+                ok = not exits and all(not g.may_follow(rs[0], e) for e in eff)
+                for e in eff:
+                    hits, _e2, _n2 = g.search(('entry',), goal=lambda ev, e=e: ev is e, stop=lambda ev: ev is ps[0], edge_filter=is_threaded_edge if g is f else None)
+                    ok = ok and not hits
+            ctx.check('R5', '%s:close-inside-pause' % g.name, ok, eff[0], 'the close callback and the slot recycling run between pause and resume',
+                      '%s runs the target\'s close callback / recycles the slot without pausing the logging thread: it may be inside that target\'s '
+                      'logger (fclose under a running fprintf for a file target)' % g.name)
+        if not grew:
+            break
+    if n == 0:
+        raise AnalysisBroken('no function closes a target')
 
 
 def r6(ctx, fns):
@@ -339,3 +395,28 @@ def r9(ctx):
                   'the queue to be written out: every record still queued at fini is dequeued and thrown away instead of written' % n)
     if checked < 3:
         raise AnalysisBroken('only %d functions on the logging thread\'s write path were found' % checked)
+
+
+def r10(ctx):
+    prog = ctx.prog
+    n = 0
+    for g in prog.all_fns(files={'lib/log.c', 'lib/log_thread.c'}):
+        for ev in g.calls('qb_log_target::logger'):
+            n += 1
+            # the object the call goes through
+            fnx = unwrap((ev.d.get('e') or {}).get('ce') or {})
+            if fnx.get('k') == 'deref':
+                fnx = unwrap(fnx['e'])
+            if fnx.get('k') != 'mem':
+                raise AnalysisBroken('%s: call through the logger slot not understood: %s' % (g.name, estr(fnx)))
+            base = estr(unwrap(fnx['b']))
+
+            def has_logger(a, fb, base=base):
+                l = unwrap(a.l)
+                return a.op == '!=' and a.rc == 0 and l.get('k') == 'mem' and l.get('f') == 'logger' and estr(unwrap(l['b'])) == base
+            ctx.check('R10', '%s:logger-present' % g.name, g.uncut_path(ev, has_logger) is None, ev,
+                      'the logger is called only where it was seen to be set',
+                      '%s calls the target\'s logger without having tested it: a target that only has a vlogger (the blackbox) and was '
+                      'given QB_LOG_CONF_THREADED makes this a call through NULL' % g.name)
+    if n < 2:
+        raise AnalysisBroken('calls through qb_log_target.logger: %d' % n)
